@@ -271,7 +271,17 @@ def lacking(rng, item, derived, negative):
             return
         open_ = [f for f, cov in cands if cov != 'all' and 'EqHashOrd' not in cov]
         if open_:
-            pick(rng, open_).ty = 'NoEq'
+            f = pick(rng, open_)
+            f.ty = 'NoEq'
+            if chance(rng, 0.5):
+                # the same head name twice with different arguments: an `Eq` one first, then the one that is not `Eq`
+                for v in item.variants:
+                    if f in v.fields:
+                        k = v.fields.index(f)
+                        earlier = [g for g in v.fields[:k] if g.ty == 'u8' and g in open_]
+                        if earlier:
+                            pick(rng, earlier).ty = 'Wr<u8>'
+                            f.ty = 'Wr<NoEq>'
             item.expect_error = ['E0277']
         return
     for f, cov in cands:
